@@ -52,19 +52,27 @@ def lengths(tier, what):
     return list(range(0, small + 1)) + list(range(65530, 65541)) + [70000]
 
 
+STD_HEADS = {0x58: 1, 0x59: 2, 0x5A: 4, 0x5B: 8}
+
+
 def library_head(payload):
-    """(head bytes the library's cbor_encode writes, dialect for the reference reader) or (None, None)"""
+    """-> (head bytes the library's cbor_encode writes, dialect for the reference reader, status)
+    status: preferred | valid-nonpreferred (standard CBOR, longer head than necessary) | dialect (non-standard
+    initial byte followed by the big-endian length) | invalid"""
     from buidl.bech32 import cbor_encode
 
+    L = len(payload)
     enc = attempt(cbor_encode, payload)
-    if not isinstance(enc, (bytes, bytearray)) or len(enc) < len(payload) or bytes(enc[len(enc) - len(payload) :]) != payload:
-        return None, None
-    head = bytes(enc[: len(enc) - len(payload)])
-    if head == ref.cbor_head(len(payload)):
-        return head, None
-    if len(head) >= 2 and int.from_bytes(head[1:], "big") == len(payload) and not 0x40 <= head[0] <= 0x5B:
-        return head, {head[0]: len(head) - 1}
-    return head, None
+    if not isinstance(enc, (bytes, bytearray)) or len(enc) < L or bytes(enc[len(enc) - L :]) != payload:
+        return None, None, "invalid"
+    head = bytes(enc[: len(enc) - L])
+    if head == ref.cbor_head(L):
+        return head, None, "preferred"
+    if head and STD_HEADS.get(head[0]) == len(head) - 1 and int.from_bytes(head[1:], "big") == L:
+        return head, None, "valid-nonpreferred"
+    if len(head) >= 2 and int.from_bytes(head[1:], "big") == L and not 0x40 <= head[0] <= 0x5B:
+        return head, {head[0]: len(head) - 1}, "dialect"
+    return head, None, "invalid"
 
 
 # ---------------------------------------------------------------- cbor
@@ -95,15 +103,16 @@ def run_cbor(case):
             res.ok("decode(encode(x))==x", nontrivial=("cbor", L, kind), sample={"L": L, "head": enc[: len(enc) - L]} if kind == "f0" and L in (23, 24, 255, 256, 65535, 65536) else None)
         want = ref.cbor_wrap(data)
         if L <= 65535:
-            if enc != want:
-                res.violation(f"C20/cbor/head/{bucket(L)}", vc, enc[:9], want[:9], "cbor_encode does not write the RFC 8949 byte-string head")
+            # interoperability floor: a strict RFC 8949 reader must recover the string (preferred head or not)
+            std = attempt(ref.cbor_unwrap, enc)
+            if std != data:
+                res.violation(f"C20/cbor/head/{bucket(L)}", vc, enc[:9], want[:9], "cbor_encode output is not an RFC 8949 byte string of the data")
+            elif enc == want:
+                res.ok("encode==rfc8949-preferred")
             else:
-                res.ok("encode==rfc8949")
+                res.ok("encode is valid CBOR with a non-preferred head (recorded, not asserted)")
             d2 = attempt(cbor_decode, want)
-            if d2 != data:
-                res.violation(f"C20/cbor/decode-standard/{bucket(L)}", vc, repr(d2)[:80], {"len": L}, "cbor_decode does not read the RFC 8949 head")
-            else:
-                res.ok("decode(rfc8949)==x")
+            res.ok("decode(rfc8949-preferred)==x" if d2 == data else "decoder does not read the preferred head (recorded; asserted only through the inverse)")
         else:
             # the statement only demands that the wrapper is inverted; which head is written is recorded
             if enc == want:
@@ -132,6 +141,9 @@ def run_bc32(case):
         data = payload_of(case["seed"], kind, L)
         want = ref.bc32_encode(data)
         enc = attempt(bc32encode, data)
+        ck_only = isinstance(enc, str) and enc != want and len(enc) == len(want) and enc[:-6] == want[:-6]
+        if ck_only:
+            cls = "checksum-chars"
         if enc != want:
             res.violation(f"C20/bc32/encode/{cls}", vc, repr(enc)[:120], want[:120], "bc32encode differs from the BCR-2020-004 reference encoder")
         else:
@@ -143,10 +155,7 @@ def run_bc32(case):
             else:
                 res.ok("decode(encode(x))==x")
         dec = attempt(bc32decode, want)
-        if dec != data:
-            res.violation(f"C20/bc32/decode-standard/{cls}", vc, repr(dec)[:120], {"len": L}, "bc32decode does not invert the reference encoding")
-        else:
-            res.ok("decode(ref)==x")
+        res.ok("decode(ref)==x" if dec == data else "decoder does not read the reference encoding (recorded; asserted through encode==ref and the inverse)")
     if case["subst"]:
         data = payload_of(case["seed"], "f0", L)
         text = ref.bc32_encode(data)
@@ -227,8 +236,11 @@ def run_chunk(case):
     payload = payload_of(seed, case["kind"], L)
     vc = {"engine": "chunk", "case": case}
     bk = bucket(L)
-    head, dialect = library_head(payload)
-    use_head = head if (L > 65535 and dialect) else None  # follow the recorded >65535 dialect, nothing else
+    head, dialect, hstat = library_head(payload)
+    # follow a valid non-preferred head, and the recorded non-standard head above 65535 bytes; nothing else
+    use_head = head if hstat == "valid-nonpreferred" or (hstat == "dialect" and L > 65535) else None
+    if hstat == "dialect" and L <= 65535:
+        dialect = None
     body, dg = ref.ur_body(payload, use_head)
     E = len(body)
     obj = attempt(BCURMulti, text_b64=b64(payload))
@@ -236,8 +248,17 @@ def run_chunk(case):
         res.violation(f"C20/chunk/construct/{bk}", vc, repr(obj), "object", "BCURMulti cannot be built for this payload")
         return res
     if (obj.encoded, obj.enc_hash) != (body, dg):
+        from buidl.bech32 import bc32encode
+
+        std = ref.cbor_wrap(payload, use_head)
+        if hstat == "invalid" or (hstat == "dialect" and L <= 65535):
+            layer = f"cbor-head/{bk}"
+        elif attempt(bc32encode, std) != ref.bc32_encode(std):
+            layer = "bc32"
+        else:
+            layer = f"digest-or-other/{bk}"
         res.violation(
-            f"C20/chunk/body/{bk}", vc, {"encoded": str(obj.encoded)[:60], "hash": obj.enc_hash}, {"encoded": body[:60], "hash": dg},
+            f"C20/chunk/body/{layer}", vc, {"encoded": str(obj.encoded)[:60], "hash": obj.enc_hash}, {"encoded": body[:60], "hash": dg},
             "bc32 body / SHA-256 digest text differ from the reference",
         )
         # one root cause, one report: the remaining comparisons are made relative to the library's own text
@@ -434,15 +455,27 @@ def run_faults(case):
     A = payload_of(seed, "A", L)
     vc = {"engine": "faults", "case": case}
     parts = lib_parts(A, mx)
-    if isinstance(parts, Rejected) or weak_parts_check(parts, *ref.ur_body(A), mx) is not None or len(parts) != n:
-        # the honest message itself is unusable: reported by `chunk` with a precise class; here once per kind
-        res.violation("C20/faults/base-message", vc, repr(parts)[:200], f"{n} usable parts", "the library does not produce the expected honest parts for the base message")
+    head, _, hstat = library_head(A)
+    if isinstance(parts, Rejected) or weak_parts_check(parts, *ref.ur_body(A, head if hstat == "valid-nonpreferred" else None), mx) is not None:
+        # the honest message itself is unusable: reported by `chunk` with a precise class; here only once
+        res.violation("C20/faults/base-message", vc, repr(parts)[:200], "usable parts", "the library does not produce usable honest parts for the base message")
         return res
+    if len(parts) != n:
+        # a different (still usable) chunking than the equalised plan is not a violation: follow the library
+        res.ok("base message has a different part count than the equalised plan (recorded)")
+        n = len(parts)
+        if n > 5 or (case["kind"] == "subst" and case["form"] == "multi" and case["part"] >= n):
+            res.skip("library part count outside the bound of this engine")
+            return res
+    sizes = [len(split_part(p)[2]) for p in parts]
+    size = sizes[0]
+    if any(x != size for x in sizes[:-1]) or sizes[-1] > size or hstat != "preferred":
+        size = None  # not equal-sized fragments / other CBOR head: crafted constructions are skipped
     multi = BCURMulti.parse
     # 0 deviations: must be accepted and give A
     st, _ = outcome_of(multi, parts, A)
     if st != "same":
-        res.violation(f"C20/faults/honest-{st}/{case['kind']}", vc, st, "original payload", "the unmodified parts are not reassembled to the original payload")
+        res.violation(f"C20/faults/honest-{st}", vc, st, "original payload", "the unmodified parts are not reassembled to the original payload")
         return res
     res.ok("honest:accepted-original")
 
@@ -482,7 +515,7 @@ def run_faults(case):
             B = payload_of(seed, "B", L + 1)
         else:
             j = int(other.split("-")[1])
-            B = bch_neighbour_payload(A, n, mx, j)
+            B = bch_neighbour_payload(A, n, size, j) if size and j < n else None
             if B is None:
                 res.skip("no room for a checksum-preserving foreign fragment in this part (text too short)")
                 return res
@@ -540,19 +573,19 @@ def run_faults(case):
         # (or the CBOR length) can reveal that trailing parts are missing
         made = 0
         for k in range(1, n):
-            C = cut_valid_payload(A, n, mx, k)
+            C = cut_valid_payload(A, n, size, k) if size else None
             if C is None:
                 res.skip("no self-contained prefix can be crafted at this cut (padding / checksum overlap)")
                 continue
             cparts = lib_parts(C, mx)
-            if isinstance(cparts, Rejected) or len(cparts) != n:
+            if isinstance(cparts, Rejected) or len(cparts) != n or len(split_part(cparts[0])[2]) != size:
                 res.skip("crafted payload does not split into n parts")
                 continue
             pref = "".join(split_part(p)[2] for p in cparts[:k])
             assert isinstance(ref.bc32_decode(pref), bytes), "cut construction"
             st, got = outcome_of(multi, cparts, C)
             if st != "same":
-                res.violation(f"C20/faults/honest-{st}/cut", vc, st, "original", "crafted payload does not round-trip")
+                res.violation(f"C20/faults/honest-{st}", vc, st, "original", "crafted payload does not round-trip")
                 continue
             st, got = outcome_of(multi, cparts[:k], C)
             if st == "different":
@@ -580,7 +613,7 @@ def run_faults(case):
             reader = BCURSingle.parse
             st, _ = outcome_of(reader, target, A)
             if st != "same":
-                res.violation(f"C20/faults/honest-{st}/subst-{form}", vc, st, "original payload", "the unmodified single-part string is not read back")
+                res.violation(f"C20/faults/honest-{st}/{form}", vc, st, "original payload", "the unmodified single-part string is not read back")
                 return res
         # field boundaries for fingerprints / the outcome histogram
         fields = target.split("/")
@@ -619,13 +652,11 @@ def run_faults(case):
     return res
 
 
-def _plan(payload, mx):
+def _plan(payload):
     cbor = ref.cbor_wrap(payload)
     syms = ref.to_base32(cbor)
-    E = len(syms) + 6
-    n, size = ref.chunk_plan(E, mx)
     head_syms = ref.ceil_div(8 * len(ref.cbor_head(len(payload))), 5)
-    return cbor, syms, n, size, head_syms
+    return syms, head_syms
 
 
 def _payload_from_syms(syms, payload):
@@ -639,12 +670,10 @@ def _payload_from_syms(syms, payload):
 GENPOLY = (1,) + ref._G  # coefficients of g(x), highest degree first
 
 
-def bch_neighbour_payload(payload, n, mx, j):
+def bch_neighbour_payload(payload, n, size, j):
     """Another payload of the same length whose bc32 text differs from payload's by one shifted copy of the
     generator polynomial placed inside fragment j (so the bc32 checksum characters are identical), or None."""
-    cbor, syms, n2, size, head_syms = _plan(payload, mx)
-    if n2 != n:
-        return None
+    syms, head_syms = _plan(payload)
     lo = max(j * size, head_syms)
     hi = min((j + 1) * size, len(syms) - 1)  # keep clear of the last data symbol (padding bits)
     if hi - lo < 7:
@@ -655,11 +684,9 @@ def bch_neighbour_payload(payload, n, mx, j):
     return _payload_from_syms(s, payload)
 
 
-def cut_valid_payload(payload, n, mx, k):
+def cut_valid_payload(payload, n, size, k):
     """A payload of the same length whose first k fragments form, on their own, a valid bc32 string, or None."""
-    cbor, syms, n2, size, head_syms = _plan(payload, mx)
-    if n2 != n:
-        return None
+    syms, head_syms = _plan(payload)
     cut = k * size
     if cut > len(syms) - 1 or cut - 7 < head_syms:
         return None
